@@ -553,10 +553,13 @@ func (f *faultyGet) Send(r *spb.GetResponse) error {
 		simrt.Active().Fault("srv-fault:" + f.fault)
 		return nil
 	case "incomplete-get":
-		f.n++
-		if f.n%2 == 1 {
-			simrt.Active().Fault("srv-fault:" + f.fault)
-			return nil
+		// (every other response that carries entries is lost; an empty one loses nothing)
+		if len(r.GetEntry()) > 0 {
+			f.n++
+			if f.n%2 == 1 {
+				simrt.Active().Fault("srv-fault:" + f.fault)
+				return nil
+			}
 		}
 	case "get-omits-nh", "get-omits-nhg", "get-omits-ipv4", "get-omits-ipv6":
 		// the response lacks every entry of one AFT; everything else is delivered
